@@ -616,10 +616,16 @@ func (i *interpreter) escapedPanic(msg, site string) {
 	label := "panic@" + site
 	// known-panic predicates registered by the harness
 	for _, kp := range p.knownP {
-		if !OpenKnown[kp.id] {
+		if strings.HasSuffix(kp.id, "@") {
+			// per-site finding family: the id listed in known_findings.txt is "<family>@<site>"
+			if !OpenKnown[kp.id+site] {
+				continue
+			}
+			kp.id = kp.id + site
+		} else if !OpenKnown[kp.id] {
 			continue
 		}
-		if kp.site != "" && !strings.Contains(site, kp.site) && !strings.Contains(msg, kp.site) {
+		if !matchPanicPattern(kp.site, msg, site) {
 			continue
 		}
 		// entirely covered by the known predicate?
@@ -648,6 +654,27 @@ func (i *interpreter) escapedPanic(msg, site string) {
 	i.violation("panic", label, msg, site, p.model, "")
 }
 
+// fuelViolation reports instruction-budget exhaustion as a non-termination candidate,
+// honouring known-finding predicates like escapedPanic does.
+func (i *interpreter) fuelViolation(msg, site string) {
+	p := i.path
+	label := "nontermination@" + site
+	for _, kp := range p.knownP {
+		id := kp.id
+		if strings.HasSuffix(id, "@") {
+			id += site
+		}
+		if !OpenKnown[id] || !matchPanicPattern(kp.site, msg, site) {
+			continue
+		}
+		i.stats.KnownSeen[id]++
+		i.violation("fuel", label, msg, site, p.model, id)
+		return
+	}
+	p.observed = append(p.observed, "stack at fuel exhaustion:\n"+i.panicStack)
+	i.violation("fuel", label, msg, site, p.model, "")
+}
+
 // ---- worker loop
 
 type RunConfig struct {
@@ -658,6 +685,31 @@ type RunConfig struct {
 	Solver   string
 	SolverMs int
 	Debug    bool
+}
+
+// matchPanicPattern: pattern = "<msg substring>@<site1>,<site2>,..." (either part may
+// be empty; without '@' the pattern is a substring of site or message).
+func matchPanicPattern(pat, msg, site string) bool {
+	if pat == "" {
+		return true
+	}
+	at := strings.IndexByte(pat, '@')
+	if at < 0 {
+		return strings.Contains(site, pat) || strings.Contains(msg, pat)
+	}
+	if m := pat[:at]; m != "" && !strings.Contains(msg, m) {
+		return false
+	}
+	sites := pat[at+1:]
+	if sites == "" {
+		return true
+	}
+	for _, s := range strings.Split(sites, ",") {
+		if s != "" && strings.HasSuffix(strings.TrimSuffix(site, ")"), strings.TrimSuffix(s, ")")) || site == s {
+			return true
+		}
+	}
+	return false
 }
 
 // OpenKnown is the set of known-finding ids listed as open in known_findings.json.
